@@ -138,6 +138,8 @@ impl Runtime {
 
     fn enter_indirect(&mut self, line: Line) {
         self.cont = State::Stopped;
+        self.stack.clear();
+        self.functions.clear();
         if line.is_empty() {
             if self.listing.remove(line.number()).is_some() {
                 self.dirty = true;
